@@ -229,7 +229,7 @@ fn main() {
             assumptions: &[
                 "digits()/from_digits()/to_bits()/from_bits() are the trusted observation channel",
                 "reference integer Z (schoolbook multiply through u64, self-tested against i128 and python vectors on every run)",
-                "37 (digit, N) configurations sample 'every N >= 1'",
+                "43 (digit, N) configurations sample 'every N >= 1'",
             ],
         },
         jobs,
